@@ -168,6 +168,24 @@ class Program:
                 m = ModuleInfo(modname, path, rel, src, tree)
                 self.modules[modname] = m
                 self._index_module(m)
+        # files that exist only in the overrides (a variant that adds a module)
+        for rel, src in sorted(self.overrides.items()):
+            modname = rel[:-3].replace("/", ".") if rel.endswith(".py") else None
+            if modname is None or not rel.startswith(PKG + "/"):
+                continue
+            if modname.endswith(".__init__"):
+                modname = modname[: -len(".__init__")]
+            if modname in self.modules:
+                continue
+            try:
+                with warnings.catch_warnings():
+                    warnings.simplefilter("ignore")
+                    tree = ast.parse(src, filename=rel)
+            except SyntaxError as e:
+                raise AnalysisError(f"cannot parse {rel}: {e}")
+            m = ModuleInfo(modname, os.path.join(self.repo, rel), rel, src, tree)
+            self.modules[modname] = m
+            self._index_module(m)
 
     def _index_module(self, m: ModuleInfo):
         for st in m.tree.body:
